@@ -449,6 +449,35 @@ func ThreadCount() int {
 	return 0
 }
 
+// othersDone is the predicate of WaitOthers.
+type othersDone struct {
+	x  *Exec
+	me int
+}
+
+//go:norace
+func (w *othersDone) Ready() bool {
+	for i := 0; i < w.x.nthr; i++ {
+		t := &w.x.threads[i]
+		if i != w.me && t.status == 1 && !t.Daemon {
+			return false
+		}
+	}
+	return true
+}
+
+// WaitOthers parks the caller until every other non-daemon thread has finished
+// (e.g. timer callbacks that have fired). Pending timers that have not fired do not count.
+//
+//go:norace
+func WaitOthers() {
+	x := X
+	if x == nil || x.aborting {
+		return
+	}
+	Wait("WaitOthers", &othersDone{x, x.cur})
+}
+
 // SetDaemon marks the calling thread as a daemon (expected to stay parked at the end).
 //
 //go:norace
@@ -467,8 +496,8 @@ func (x *Exec) run(t *Thread, f func()) {
 	}
 	defer func() {
 		if r := recover(); r != nil {
-			if _, ok := r.(abortSentinel); ok {
-				return
+			if _, ok := r.(abortSentinel); ok || x.aborting {
+				return // tear-down: code under test may have wrapped the sentinel (singleflight re-panics)
 			}
 			t.Panic = fmt.Sprintf("%v\n%s", r, trimStack(debug.Stack()))
 		}
